@@ -162,6 +162,12 @@ def run_par_case(case):
         ds = W.build(desc, parallel=True)
         if case.get('items'):
             ds = ds.items()
+        if case.get('via_copy'):
+            # the consumer works on a copy of the freshly built pipeline (as an
+            # outer stage, a profiler or a second client would): a copy must
+            # behave like the pipeline it was taken from
+            with S.building():
+                ds = ds.copy()
     except Exception as e:
         res['build_error'] = type(e).__name__
         ds = None
